@@ -479,6 +479,8 @@ func fpUn(op string, a *Term) *Term {
 			return Const(64, math.Float64bits(math.Floor(x)))
 		case "fp.ceil":
 			return Const(64, math.Float64bits(math.Ceil(x)))
+		case "fp.trunc":
+			return Const(64, math.Float64bits(math.Trunc(x)))
 		case "fp.abs":
 			return Const(64, math.Float64bits(math.Abs(x)))
 		}
@@ -561,6 +563,8 @@ func (t *Term) body() string {
 		return "(fp.to_ieee_bv (fp.roundToIntegral RTN " + fpw(a(0)) + "))"
 	case "fp.ceil":
 		return "(fp.to_ieee_bv (fp.roundToIntegral RTP " + fpw(a(0)) + "))"
+	case "fp.trunc":
+		return "(fp.to_ieee_bv (fp.roundToIntegral RTZ " + fpw(a(0)) + "))"
 	case "fp.abs":
 		return "(fp.to_ieee_bv (fp.abs " + fpw(a(0)) + "))"
 	case "fp.to_sint":
@@ -627,6 +631,8 @@ func evalTerm(t *Term, model map[string]uint64, memo map[*Term]uint64) uint64 {
 		r = math.Float64bits(math.Floor(math.Float64frombits(ev(0))))
 	case "fp.ceil":
 		r = math.Float64bits(math.Ceil(math.Float64frombits(ev(0))))
+	case "fp.trunc":
+		r = math.Float64bits(math.Trunc(math.Float64frombits(ev(0))))
 	case "fp.abs":
 		r = math.Float64bits(math.Abs(math.Float64frombits(ev(0))))
 	case "fp.to_sint":
